@@ -1746,7 +1746,7 @@ func ruleMinRange(c *Ctx, rule string) {
 			continue
 		}
 		for edge, succ := range b.Succs {
-			if !rejects(succ) {
+			if !rejectsFrom(b, succ) {
 				continue
 			}
 			f, ok := strictForm(bo, edge, nil)
@@ -1784,8 +1784,17 @@ func ruleMinRange(c *Ctx, rule string) {
 // rejects: the block leaves the function reporting an error (stores a
 // non-nil value in a named error result or returns one) without any loop.
 func rejects(b *ssa.BasicBlock) bool {
+	var prev *ssa.BasicBlock
+	if len(b.Preds) == 1 {
+		prev = b.Preds[0]
+	}
+	return rejectsFrom(prev, b)
+}
+
+// rejectsFrom: the same, for the edge from prev to b (a joined result is judged by what that edge contributes).
+func rejectsFrom(prev, b *ssa.BasicBlock) bool {
 	seen := map[*ssa.BasicBlock]bool{}
-	for b != nil && !seen[b] {
+	for ; b != nil && !seen[b]; prev, b = b, b.Succs[0] {
 		seen[b] = true
 		for _, ins := range b.Instrs {
 			switch x := ins.(type) {
@@ -1795,6 +1804,17 @@ func rejects(b *ssa.BasicBlock) bool {
 				}
 			case *ssa.Return:
 				for _, r := range x.Results {
+					// a result joined from several paths: what this path contributes
+					if phi, ok := r.(*ssa.Phi); ok && phi.Block() == b && prev != nil {
+						for i, p := range b.Preds {
+							if p == prev {
+								r = phi.Edges[i]
+							}
+						}
+						if knownNilAt(prev, r) {
+							continue
+						}
+					}
 					if isErrorType(r.Type()) && !isNilConst(r) {
 						if _, isLoad := r.(*ssa.UnOp); !isLoad {
 							return true
@@ -1809,7 +1829,20 @@ func rejects(b *ssa.BasicBlock) bool {
 		if len(b.Succs) != 1 {
 			return false
 		}
-		b = b.Succs[0]
+	}
+	return false
+}
+
+// knownNilAt: every path into blk (or blk's own branch towards its successor, for the block that tests it) has
+// found v == nil.
+func knownNilAt(blk *ssa.BasicBlock, v ssa.Value) bool {
+	if isNilConst(v) {
+		return true
+	}
+	for _, bf := range branchesAt(blk) {
+		if bf.cond.X == v && isNilConst(bf.cond.Y) && effectiveOp(bf, true) == token.EQL {
+			return true
+		}
 	}
 	return false
 }
@@ -2149,6 +2182,12 @@ func ruleTableShift(c *Ctx, rule string, tables ...string) {
 						continue
 					}
 					l := linOf(ia.Index, &linEnv{noInline: true})
+					if _, viaHelper := ia.Index.(*ssa.Call); viaHelper {
+						// the subscript is computed by a one-line helper of the module (solexaIndex(qs)): its expression;
+						// a conversion between integer types of a score in -128..127 plus the shift is the same position
+						// modulo the table size
+						l = linOf(ia.Index, &linEnv{})
+					}
 					if len(l.coef) != 1 {
 						continue
 					}
